@@ -198,7 +198,7 @@ class SymText:
 
 
 def _core_bytes(*args):
-    if len(args) == 2 and not isinstance(args[0], (bytes, bytearray, int, list, tuple)):
+    if len(args) == 2 and _is_symbolic(args[0]):
         return SymText(args[0])
     return bytes(*args)
 
